@@ -1096,7 +1096,12 @@ def get_command_instance(
     """
     cname = "%sCommand" % name.lower().capitalize()
     gl = globals()
-    condition = cname not in gl
+    condition = (
+        cname not in gl
+        or not isinstance(gl[cname], type)
+        or not issubclass(gl[cname], Command)
+        or not hasattr(gl[cname], "args_definition")
+    )
     if condition:
         raise UnknownCommand(name)
     condition = (
